@@ -15,6 +15,9 @@ CLAIMED = {
  "C03": ("Lean 4 theorems (cycle => divergence, exit => fixpoint, totality of modelled loops, pass-order table) + NGO_VERIF trace correspondence + exception/cycle/time-out observation of the real optimize",
          "Proved: C03_cycle_diverges (a repeated non-fixpoint state of a deterministic loop never exits), C03_exit_is_fixpoint for the model of api.optimize, C03_pass_order / C03_iteration_stages over the generated API_ORDER, termination of the naming loops. NOT proved: termination of the composed outer loop (depends on all passes and sympy). Tie: the stage sequence of the NGO_VERIF trace equals the model's schedule for each flag vector and iteration count; loop exits exactly at the first fixpoint. Observed on the real code: exceptions, repeated states (reported with the theorem as justification), time-outs (skipped, never a verdict). Known finding D22 (classical negation); five crash defects repaired by fix: commits.",
          "No model exhibits recursion depth, sympy run time or wall time; a time-out without a repeated state is not a verdict.", "§9 C03"),
+ "C08": ("Lean 4 theorems (HT schema M5/M6+, decision kernel of the cleanup model) + exact-output correspondence of the whole pass + clingo differential oracle as failing-input search",
+         "Proved (ground level, all programs of the definite-reduct class): supportedness and removal of an implied positive body atom; proved about the executable model of cleanup.py: a negated literal is never superseded by the positive atom of its predicate, only positive literals supersede, mappings are used with their recorded sign, argument positions are respected, boolean elimination is sound. Tie: the 443-line model reproduces CleanupTranslator.execute (after inline_arithmetic) token for token on ~3000 quick / ~80000 thorough cases (39% change the program). Not proved: mappings => schema side condition (validated by clingo on the real code; findings D24, D25, and the normal-form findings D3, D8, D19).",
+         "Semantics is ours (published HT/Abstract-Gringo reading); the oracle trusts clingo; instance facts only over input predicates.", "§9 C08"),
 }
 PENDING = {}
 props = [json.loads(l) for l in open(os.path.join(VERIF, "properties.jsonl"))]
